@@ -11,6 +11,7 @@ from vt import gen
 
 PROPERTY = "C08"
 TITLE = "Antenna response"
+TECHNIQUE = ('runtime monitoring: apply_response/receive executions with recorders on the gain functions, decided by an independent gain x FFT-filter model (closed-form dipole band-pass), joint SO(3) rotations and re-use of the same antenna object')
 ANCHORS = ["pyrex.antenna:Antenna.apply_response", "pyrex.antenna:Antenna.receive", "pyrex.antenna:Antenna._convert_to_antenna_coordinates",
            "pyrex.antenna:DipoleAntenna.directional_gain", "pyrex.antenna:DipoleAntenna.polarization_gain",
            "pyrex.antenna:DipoleAntenna.frequency_response", "pyrex.detector:AntennaSystem.apply_response", "pyrex.detector:AntennaSystem.receive"]
